@@ -8,7 +8,9 @@ BigNs == {100, 1000, 10000, 100000, 200000}
 SqPts == {<<1, 4>>, <<1, 1>>, <<4, 1>>, <<9, 4>>, <<16, 1>>, <<25, 9>>}
 \* n beyond 32 bits (base-10^4 limbs, least significant first): 2^32 + 1, 5e9, the largest n whose C(n, 2) fits in 64 bits
 \* (6074001000) and its successor, 2^33 + 12345
-HugeNs == {<<7297, 9496, 42>>, <<0, 0, 50>>, <<1000, 7400, 60>>, <<1001, 7400, 60>>, <<6937, 8994, 85>>}
+\* (the last four: 2^63 - 1, 2^63, 2^63 + 1 and 2^64 - 1, where only k = 0, 1 and their mirror images fit)
+HugeNs == {<<7297, 9496, 42>>, <<0, 0, 50>>, <<1000, 7400, 60>>, <<1001, 7400, 60>>, <<6937, 8994, 85>>,
+           <<5807, 5477, 6854, 7203, 9223>>, <<5808, 5477, 6854, 7203, 9223>>, <<5809, 5477, 6854, 7203, 9223>>, <<1615, 5955, 737, 4407, 8446, 1>>}
 Init == \/ \E n \in 0..NP : c = [fam |-> "pascal", n |-> n]
         \/ \E nB \in HugeNs, k \in 0..3, sym \in {TRUE, FALSE} : c = [fam |-> "hugen", nB |-> nB, k |-> k, sym |-> sym]
         \/ \E n \in BigNs, k \in 0..32 : c = [fam |-> "bign", n |-> n, k |-> k]
